@@ -272,7 +272,7 @@ def _main(prop, args, seed, t0):
         body = json.loads(Path(args.replay).read_text())
         if body.get("kind") == "no-failing-input-found":
             ok, broken = lean_build(prop, "quick", info)
-            if broken:
+            if [b for b in broken if not b.startswith("anchor lost")]:
                 print(f"VIOLATION property={prop} replay={args.replay} no-failing-input-found")
                 return 1
             print(f"replay: {body.get('broken')} now checks")
@@ -357,6 +357,12 @@ def _main(prop, args, seed, t0):
                             "wall_s": round(time.time() - tf, 2), "theorems": list(fam.theorems)}
 
     # 3. decide ---------------------------------------------------------------
+    # A lost translator anchor is SOFT: the definition falls back to the pinned one (harness/translate/__init__.py), the
+    # theorems are re-checked about that model, and the model is tied to the source by the correspondence alone, which
+    # was therefore run at the thorough size above.  Only when that correspondence disagrees (or a proof / the build /
+    # the audit broke) is the property "no longer shown to hold".
+    soft_broken = [b for b in broken if b.startswith("anchor lost")]
+    hard_broken = [b for b in broken if not b.startswith("anchor lost")]
     new_viol = []
     for name, c, v in viols:
         e = match_known(prop, name, c, v, known)
@@ -389,7 +395,7 @@ def _main(prop, args, seed, t0):
             out_lines.append(f"VIOLATION property={prop} replay={p}")
             log(f"[{prop}] {name}: {v2.what}")
         rc = 1
-    elif broken or corrs:
+    elif hard_broken or corrs:
         what = list(broken)
         extra = {"broken": what}
         if corrs:
@@ -402,6 +408,10 @@ def _main(prop, args, seed, t0):
         replay_paths.append(str(p))
         out_lines.append(f"VIOLATION property={prop} replay={p} no-failing-input-found")
         rc = 1
+    elif soft_broken:
+        out_lines.append(f"ANCHOR-LOST (advisory): property={prop} {len(soft_broken)} source anchor(s) could not be read by the "
+                         f"translator; the pinned definitions were used and agree with the implementation on all "
+                         f"{evaluations} cases of the thorough-size correspondence: " + "; ".join(soft_broken)[:400])
 
     # 4. evidence ---------------------------------------------------------------
     obligations = info.get("obligations", 0)
@@ -428,7 +438,10 @@ def _main(prop, args, seed, t0):
             "exhaustive": bool(getattr(mod, "EXHAUSTIVE", {}).get(eff_tier, False)),
             "input_distribution": dict(sorted(dist.items())),
             "families": per_family,
-            "proof_side_broken": broken,
+            "proof_side_broken": hard_broken,
+            "anchors_lost": soft_broken,
+            "source_tie": ("translator + correspondence" if not soft_broken else
+                           "correspondence only for the lost anchors (pinned definitions, thorough-size comparison)"),
             "drifted_functions": drift_changed,
             "missing_anchors": drift_missing,
             "known_findings_hit": sorted(known_hit),
